@@ -2,6 +2,7 @@ package mount
 
 import (
 	"path"
+	"strings"
 	"time"
 
 	"github.com/hack-pad/hackpadfs"
@@ -217,5 +218,64 @@ func VerifC03Step() {
 	c03Op(fs)
 	verifReach("op-returned")
 	c03Invariant(fs, "after the operation")
+	verifReach("invariant-checked")
+}
+
+// VerifC03Hist: two operations in a row - first one that can make a parent disappear or change kind
+// (Remove, RemoveAll, Rename), then one that creates an entry (Mkdir, MkdirAll, WriteFullFile, OpenFile with
+// O_CREATE) - from every well-formed pre-state; the tree is well formed after each. What a file system
+// remembers from earlier calls (the pre-state is itself built by Mkdir / WriteFullFile calls) must not let an
+// entry appear below a missing parent or below a regular file.
+func VerifC03Hist() {
+	fs := c03NewFS()
+	c03SymTree(fs)
+	cands := rCandidates()
+	full := verifParam("HISTFULL") != 0 // quick: fewer rename targets, only nested targets for the creation
+	p := cands[1+verifChoice("arg", len(cands)-1)]
+	switch verifChoice("op1", 3) {
+	case 0:
+		verifTag("op1", "Remove")
+		_ = hackpadfs.Remove(fs, p)
+	case 1:
+		verifTag("op1", "RemoveAll")
+		_ = hackpadfs.RemoveAll(fs, p)
+	default:
+		verifTag("op1", "Rename")
+		n2 := len(cands) - 1
+		if !full {
+			n2 = 3
+		}
+		_ = hackpadfs.Rename(fs, p, cands[1+verifChoice("arg2", n2)])
+	}
+	c03Invariant(fs, "after the first operation")
+	var deeper []string
+	for _, c := range cands {
+		if full || strings.Contains(c, "/") {
+			deeper = append(deeper, c)
+		}
+	}
+	q := deeper[verifChoice("arg3", len(deeper))]
+	nop2 := 4
+	if !full {
+		nop2 = 3
+	}
+	switch verifChoice("op2", nop2) {
+	case 0:
+		verifTag("op2", "Mkdir")
+		_ = hackpadfs.Mkdir(fs, q, 0755)
+	case 1:
+		verifTag("op2", "MkdirAll")
+		_ = hackpadfs.MkdirAll(fs, q, 0755)
+	case 2:
+		verifTag("op2", "WriteFullFile")
+		_ = hackpadfs.WriteFullFile(fs, q, []byte{1}, 0644)
+	default:
+		verifTag("op2", "OpenFile(O_CREATE)")
+		if f, err := hackpadfs.OpenFile(fs, q, hackpadfs.FlagReadWrite|hackpadfs.FlagCreate, 0644); err == nil {
+			_ = f.Close()
+		}
+	}
+	verifReach("op-returned")
+	c03Invariant(fs, "after the second operation")
 	verifReach("invariant-checked")
 }
